@@ -247,6 +247,9 @@ type c13Actor struct {
 	Trig  string `json:"trig"`            // "t<µs>" after start, "w<k>" / "r<k>": when the side's k-th transport write / read begins
 	Sizes []int  `json:"sizes,omitempty"` // writer: payload size of each Write
 	Buf   int    `json:"buf,omitempty"`   // reader: buffer size
+	// Stream (reader, datagram calls): this reader uses Read (stream style, a buffer smaller than the
+	// messages) next to the ReadFrom readers of the same connection
+	Stream bool `json:"stream,omitempty"`
 	N     int    `json:"n,omitempty"`     // state / deadline: iterations
 }
 
@@ -275,6 +278,11 @@ type c13Case struct {
 	SlowWrites [2]int `json:"slow_writes,omitempty"`
 	Actors   []c13Actor `json:"actors"`
 }
+
+// c13Sentinel is the writer id of the messages the harness itself sends at the end of a case with
+// mixed readers: a ReadFrom caller waiting for the transport holds the connection's read lock, and the
+// rest of a message a Read caller has begun stays behind it until one more datagram arrives.
+const c13Sentinel = 0xFF
 
 // frame: 0xF5, writer id, seq (2), len (4), body. The body is a function of (id, seq).
 func c13Frame(id, seq, size int) []byte {
@@ -409,6 +417,10 @@ func c13Run(c c13Case) (sig, msg string) {
 	var closing int32 // set before any Close is called
 	var closeAt atomic.Value
 	var recvd [2]int64 // bytes (or datagrams) received by the readers of each side
+	mixed := false      // datagram calls with a stream-style reader: volumes are counted in bytes
+	for _, a := range c.Actors {
+		mixed = mixed || (a.Kind == "reader" && a.Stream)
+	}
 	var done int64
 
 	if c.Pre {
@@ -532,15 +544,53 @@ func c13Run(c c13Case) (sig, msg string) {
 					}
 				case "reader":
 					buf := make([]byte, a.Buf)
+					var spHdr []byte
+					spRemain, spSentinel := 0, false
 					for {
-						n, err := c13Read(conn, c.Dgram, buf)
-						if n > 0 || (c.Dgram && err == nil) {
+						n, err := c13Read(conn, c.Dgram && !a.Stream, buf)
+						if n > 0 || (c.Dgram && !a.Stream && err == nil) {
 							rmu.Lock()
 							res.chunks[ai] = append(res.chunks[ai], append([]byte(nil), buf[:n]...))
 							rmu.Unlock()
-							if c.Dgram {
+							switch {
+							case c.Dgram && !mixed:
 								atomic.AddInt64(&recvd[a.Side], 1)
-							} else {
+							case c.Dgram && !a.Stream:
+								if !(n >= 2 && buf[1] == c13Sentinel) {
+									atomic.AddInt64(&recvd[a.Side], int64(n))
+								}
+							case c.Dgram:
+								// stream-style reader next to ReadFrom readers: count the bytes of real messages only
+								cnt := 0
+								for d := buf[:n]; len(d) > 0; {
+									if spRemain == 0 && len(spHdr) < 8 {
+										k := vfMin(8-len(spHdr), len(d))
+										spHdr = append(spHdr, d[:k]...)
+										d = d[k:]
+										if len(spHdr) == 8 {
+											spSentinel = spHdr[1] == c13Sentinel
+											spRemain = int(binary.BigEndian.Uint32(spHdr[4:]))
+											if !spSentinel {
+												cnt += 8
+											}
+											if spRemain == 0 {
+												spHdr = spHdr[:0]
+											}
+										}
+										continue
+									}
+									k := vfMin(spRemain, len(d))
+									if !spSentinel {
+										cnt += k
+									}
+									spRemain -= k
+									d = d[k:]
+									if spRemain == 0 {
+										spHdr = spHdr[:0]
+									}
+								}
+								atomic.AddInt64(&recvd[a.Side], int64(cnt))
+							default:
 								atomic.AddInt64(&recvd[a.Side], int64(n))
 							}
 						}
@@ -674,7 +724,7 @@ func c13Run(c c13Case) (sig, msg string) {
 		for ai, a := range c.Actors {
 			if a.Kind == "writer" {
 				for s := 0; s < res.written[ai]; s++ {
-					if c.Dgram {
+					if c.Dgram && !mixed {
 						want[1-a.Side]++
 					} else {
 						want[1-a.Side] += int64(8 + a.Sizes[s])
@@ -696,6 +746,27 @@ func c13Run(c c13Case) (sig, msg string) {
 			wgAll.Add(1)
 			go func() { defer wgAll.Done(); defer nw.tick(); conns[es].Close() }()
 			hasReader[es] = false // its own readers are cut off by its Close
+		}
+		if mixed {
+			for s := 0; s < 2; s++ {
+				if !hasReader[s] {
+					continue
+				}
+				s := s
+				wgAll.Add(1)
+				go func() {
+					defer wgAll.Done()
+					for i := 0; i < 5000 && atomic.LoadInt32(&closing) == 0 && atomic.LoadInt64(&recvd[s]) < want[s]; i++ {
+						time.Sleep(2 * time.Millisecond)
+						if atomic.LoadInt64(&recvd[s]) >= want[s] {
+							return
+						}
+						if _, err := c13Write(conns[1-s], true, c13Frame(c13Sentinel, 0, 0)); err != nil {
+							return
+						}
+					}
+				}()
+			}
 		}
 		last, lastAt := int64(-1), time.Now()
 		for {
@@ -882,7 +953,36 @@ func c13Judge(c c13Case, res *c13Result) (sig, msg string) {
 			seen := map[[2]int]int{}
 			for _, ri := range readers {
 				lastSeq := map[int]int{}
-				for _, ch := range res.chunks[ri] {
+				chunks := res.chunks[ri]
+				if c.Actors[ri].Stream {
+					// a stream-style reader: its chunks, joined, are whole messages one after the other
+					var all []byte
+					for _, ch := range chunks {
+						all = append(all, ch...)
+					}
+					chunks = nil
+					for len(all) > 0 {
+						if bytes.HasPrefix(c13Frame(c13Sentinel, 0, 0), all) {
+							break // the case ended while this reader was inside one of the harness's own messages
+						}
+						if len(all) < 8 || all[0] != 0xF5 {
+							return "datagram-damaged", fmt.Sprintf("reader %d (Read, %d-byte buffer, next to ReadFrom readers): its bytes do not continue with a message at offset %d: % x", ri, c.Actors[ri].Buf, len(all), all[:vfMin(len(all), 16)])
+						}
+						l := 8 + int(binary.BigEndian.Uint32(all[4:]))
+						if l > len(all) {
+							if closeScenario {
+								break
+							}
+							l = len(all)
+						}
+						chunks = append(chunks, all[:l])
+						all = all[l:]
+					}
+				}
+				for _, ch := range chunks {
+					if bytes.Equal(ch, c13Frame(c13Sentinel, 0, 0)) {
+						continue
+					}
 					if len(ch) < 8 || ch[0] != 0xF5 {
 						return "datagram-damaged", fmt.Sprintf("reader %d received a datagram that is no frame: % x", ri, ch[:vfMin(len(ch), 24)])
 					}
@@ -1148,6 +1248,12 @@ func c13GenDuplex(t *rapid.T) c13Case {
 				buf = 2048
 			}
 			c.Actors = append(c.Actors, c13Actor{Side: side, Kind: "reader", Trig: c13GenTrig(t, 9), Buf: buf})
+		}
+		// datagram calls: one more reader that uses Read with a small buffer, so that the rest of a message
+		// stays inside the connection while the others call ReadFrom
+		if c.Dgram && peerWriters > 0 && rapid.IntRange(0, 2).Draw(t, "streamReader") == 0 {
+			c.Actors = append(c.Actors, c13Actor{Side: side, Kind: "reader", Trig: c13GenTrig(t, 9), Stream: true,
+				Buf: rapid.SampledFrom([]int{1, 4, 7, 100, 500}).Draw(t, "sbuf")})
 		}
 	}
 	// datagram stack: duplicates of a side's final flight arrive after the handshake, over a slow link,
